@@ -137,6 +137,17 @@ class ConsistentLeg(object):
             bad = _cmp_dialect(db.dialect, want_o, "reopened FeatureDB.dialect")
             if bad:
                 return bad
+            if d["style"] != "gtf" and n % 2 == 1:
+                # features added later from text written in another dialect do not change what the database reports
+                other = "chr1\tsrc\tgene\t1\t2\t.\t+\t.\tID=zz_later ; extra=1 ; more=2;" if d["sep"] != " ; " else \
+                    "chr1\tsrc\tgene\t1\t2\t.\t+\t.\tID=zz_later;extra=1;more=2"
+                db.update(ctx.write("upd.txt", other + "\n"), make_backup=False)
+                db.conn.close()
+                db = gffutils.FeatureDB(dbfn, keep_order=True)
+                bad = _cmp_dialect(db.dialect, want_o, "FeatureDB.dialect reopened after update() with differently written text")
+                if bad:
+                    return bad
+                db.delete("zz_later", make_backup=False)
         # routing
         feats = list(db.all_features())
         if d["style"] == "gtf":
